@@ -2427,3 +2427,9 @@ mutant("c17-f57-upgrade-watcher-ignores-the-close", "C17", "C17-D7", "engine.io/
 			s.debug.Log("Socket was closed during the upgrade")
 			t.Close()
 """, "")
+
+# F58 / F59
+mutant("c16-f58-raw-options-under-the-lock", "C16", "C16-D7", "adapter/adapter_memory.go",
+       "	opts = normalizeBroadcastOptions(opts)\n\n	a.mu.Lock()\n", "	a.mu.Lock()\n")
+mutant("c16-f59-headers-written-into-shared-dial-options", "C16", "C16-D8", "engine.io/transport/websocket/client.go",
+       "		dialOptions.HTTPHeader = header\n", "		dialOptions.HTTPHeader = header\n		if t.dialOptions != nil {\n			t.dialOptions.HTTPHeader = header\n		}\n")
